@@ -1,4 +1,5 @@
 """Obligations decided by engine K (Kani), with native confirmation of counterexamples."""
+import json
 import os
 import re
 
@@ -165,6 +166,94 @@ def confirm_playback(harness):
     return f
 
 
+def ffi_cycle_scenarios():
+    """Full life cycles through the C interface only (config, context, events, every read-out, frees), both methods, ANSI on and off,
+    with texts whose candidate lists contain an empty string, emoticons, an empty suggestion after the last backspace."""
+    from obl_assembly import char_keys
+    keys = char_keys()
+    db = REPO + "/data"
+    cfgs = []
+    for ansi in (False, True):
+        for eng in (False, True):
+            cfgs.append(("phonetic list", {"layout": "avro_phonetic", "database": db, "opts": {"phonetic_suggestion": True, "english": eng, "ansi": ansi}}))
+            cfgs.append(("fixed list", {"layout": db + "/Probhat.json", "database": db, "opts": {"fixed_suggestion": True, "english": eng, "ansi": ansi, "vowel": True, "kar": True}}))
+        cfgs.append(("phonetic single", {"layout": "avro_phonetic", "database": db, "opts": {"phonetic_suggestion": False, "ansi": ansi}}))
+        cfgs.append(("fixed single", {"layout": db + "/Probhat.json", "database": db, "opts": {"fixed_suggestion": False, "ansi": ansi}}))
+    texts = ["ami", "`", "``", "a`", ":)", "kotha.", "\"k\""]
+    tails = [[], [{"backspace": False}] * 7, [{"backspace": True}], [{"commit": 0}], [{"finish": 1}, {"backspace": False}]]
+    scs, meta = [], []
+    for label, cfg in cfgs:
+        for t in texts:
+            if not all(ch in keys for ch in t):
+                continue
+            for ti, tail in enumerate(tails):
+                for late in (False, True):
+                    if late and ti not in (0, 1):
+                        continue
+                    ev = [{"key": keys[ch], "sel": 0} for ch in t] + tail
+                    scs.append({"steps": [{"op": "ffi_cycle", "config": cfg, "events": ev, "late_free": late}]})
+                    meta.append((label, cfg, t, tail, late))
+    return scs, meta
+
+
+def confirm_ffi_cycle(harness):
+    """Native confirmation for the C-interface harnesses: life cycles through the exported functions under an allocation-counting
+    allocator; a read-out that differs from the Rust value, a panic, or live blocks left after everything was freed confirms."""
+    def f(check, r):
+        from common import run_replay_parallel
+        scs, meta = ffi_cycle_scenarios()
+        res = run_replay_parallel(scs)
+        for (label, cfg, t, tail, late), sc, rr in zip(meta, scs, res):
+            x = rr["results"][0]
+            what = None
+            if x.get("panic"):
+                what = "panics: %s" % x["panic"]
+            elif x.get("error"):
+                continue
+            elif x.get("mismatches"):
+                what = x["mismatches"][0]
+            elif x.get("net_blocks", 0) != 0 or x.get("net_bytes", 0) != 0:
+                what = "%d block(s) / %d byte(s) still allocated after every returned pointer was given to its free function" % (x["net_blocks"], x["net_bytes"])
+            if what:
+                return dict(key=harness + " natively reproduced",
+                            what="C interface life cycle (%s, options %s): typed %r%s%s: %s" % (
+                                label, json.dumps(cfg["opts"]), t, (" then %s" % json.dumps(tail)) if tail else "", ", strings freed after the context" if late else "", what),
+                            replay=dict(scenario=sc, observed=x, kani_harness=harness, failed_checks=[q["description"] for q in r["failed"]][:5]))
+        return False
+    return f
+
+
+def obl_ffi_lifecycle_validation(check):
+    """Validation of the C-interface harnesses' model against the real build: the stubbed ownership transfer (CString::from_raw) and the
+    tagging encoder stand for the real ones only if real life cycles agree - every read-out equal to the Rust value, zero blocks left."""
+    from common import run_replay_parallel
+    scs, meta = ffi_cycle_scenarios()
+    res = run_replay_parallel(scs)
+    strings = 0
+    for (label, cfg, t, tail, late), sc, rr in zip(meta, scs, res):
+        x = rr["results"][0]
+        if x.get("error"):
+            check.obligation("ffi_lifecycle_validation", "native validation", "inconclusive", "life cycle did not run: %s" % x["error"])
+            return
+        strings += x.get("strings", 0)
+        what = None
+        if x.get("panic"):
+            what = "panics: %s" % x["panic"]
+        elif x.get("mismatches"):
+            what = x["mismatches"][0]
+        elif x.get("net_blocks", 0) != 0 or x.get("net_bytes", 0) != 0:
+            what = "%d block(s) / %d byte(s) still allocated after every returned pointer was given to its free function" % (x["net_blocks"], x["net_bytes"])
+        if what:
+            st = check.finding("C interface life cycle", "C interface life cycle (%s, options %s): typed %r%s%s: %s" % (
+                label, json.dumps(cfg["opts"]), t, (" then %s" % json.dumps(tail)) if tail else "", ", strings freed after the context" if late else "", what),
+                dict(scenario=sc, observed=x))
+            check.obligation("ffi_lifecycle_validation", "native validation", st, "a real life cycle contradicts the harness model")
+            return
+    check.stats["traces_validated"] += len(scs)
+    check.obligation("ffi_lifecycle_validation", "native validation", "held",
+                     "%d real life cycles through the exported functions (%d strings read, compared and freed; allocation-counting allocator: 0 blocks left)" % (len(scs), strings))
+
+
 HARNESSES = {
     "k_keycode_total": dict(confirm=confirm_keycode_total, bound="all 2^16 key codes"),
     "k_keycode_table": dict(confirm=confirm_keycode_table, bound="all published keys whose name denotes a character"),
@@ -181,6 +270,10 @@ HARNESSES = {
     "k_suggestion_single_accessors": dict(confirm=confirm_accessors, bound="single-string and empty suggestion, symbolic ansi; encoder stubbed"),
     "k_ffi_suggestion_full": dict(confirm=confirm_playback("k_ffi_suggestion_full"), bound="list suggestion with 2 candidates, 2 symbolic non-NUL ASCII bytes, symbolic selection; CBMC pointer checks on"),
     "k_ffi_suggestion_single": dict(confirm=confirm_playback("k_ffi_suggestion_single"), bound="single suggestion, empty or one symbolic byte; pointer checks on"),
+    "k_ffi_strings_match_and_are_reclaimed": dict(confirm=confirm_ffi_cycle("k_ffi_strings_match_and_are_reclaimed"),
+                                                  bound="list suggestion with 2 candidates (the first empty or not), ANSI on/off, symbolic index; every returned string equals the Rust value and is taken back exactly once by riti_string_free (counting stub of CString::from_raw)"),
+    "k_ffi_single_strings_match_and_are_reclaimed": dict(confirm=confirm_ffi_cycle("k_ffi_single_strings_match_and_are_reclaimed"),
+                                                         bound="single suggestion (empty or one byte), ANSI on/off; read-outs equal the Rust value and are taken back exactly once"),
     "k_ffi_config": dict(confirm=confirm_playback("k_ffi_config"), bound="config object through all 11 boolean setters, two symbolic flags"),
 }
 
